@@ -443,7 +443,8 @@ func (p *parser) substituteAmpersandsInCompoundSelector(
 	sel.NestingSelectorLocs = nil
 
 	// "div { :is(&.foo) {} }" => ":is(div.foo) {}"
-	for _, ss := range sel.SubclassSelectors {
+	didCloneSubclassSelectors := false
+	for i, ss := range sel.SubclassSelectors {
 		if class, ok := ss.Data.(*css_ast.SSPseudoClassWithSelectorList); ok {
 			outer := make([]css_ast.ComplexSelector, 0, len(class.Selectors))
 			for _, complex := range class.Selectors {
@@ -453,7 +454,18 @@ func (p *parser) substituteAmpersandsInCompoundSelector(
 				}
 				outer = append(outer, css_ast.ComplexSelector{Selectors: inner})
 			}
-			class.Selectors = outer
+
+			// Don't modify the pseudo-class in place. It's shared with the other
+			// copies of this selector that are generated when the parent rule has
+			// multiple selectors and ":is" can't be used. Otherwise every copy
+			// ends up with the substitution that was done for the first one.
+			if !didCloneSubclassSelectors {
+				sel.SubclassSelectors = append([]css_ast.SubclassSelector{}, sel.SubclassSelectors...)
+				didCloneSubclassSelectors = true
+			}
+			clone := *class
+			clone.Selectors = outer
+			sel.SubclassSelectors[i].Data = &clone
 		}
 	}
 
